@@ -296,6 +296,11 @@ def judge_worlds(worlds, scens, ctx, name, pid_sig=None):
     traces, keep = [], []
     for w, scen in zip(worlds, scens):
         w = summarize(w)
+        if w.outcome == "steplimit":
+            # the execution did not finish within the step budget of the harness: nothing can be concluded from it (under an
+            # unfair schedule a polling loop runs for ever although the call would end) - counted, never judged
+            ctx.extra["inconclusive_step_limit"] = ctx.extra.get("inconclusive_step_limit", 0) + 1
+            continue
         tr, main_exc = to_trace(w)
         if main_exc is not None and not any(e["op"]["op"] == "fault" for e in tr):
             # the consumer saw an exception: the call did not return its results
